@@ -228,7 +228,7 @@ func init() {
 		}
 		sep, ok := args[1].(string)
 		if !ok {
-			sep = p.concretizeString(p.strOf(args[1]))
+			return p.mkInt(p.strIndexOfSym(p.strOf(args[0]), p.strOf(args[1])), types.Int)
 		}
 		return p.mkInt(p.strIndexOf(p.strOf(args[0]), sep), types.Int)
 	}
